@@ -19,7 +19,8 @@ IncDirs == {"inc1", "inc2"}
 Body(k) == << Code("K" \o ToString(k) \o " = " \o ToString(10 + k)),
               Code("F" \o ToString(k) \o ":"),
               Code("addi x5, x5, K" \o ToString(k)),
-              Code("jal x1, F" \o ToString(k)) >>
+              Code("jal x1, F" \o ToString(k)),
+              Code("string s" \o ToString(k) \o "  ") >>      \* the file's LAST line: a text that ends in blanks
 Decoy(k) == << Code("addi x6, x6, 99"), Code("Z" \o ToString(k) \o ":") >>
 
 DirOf(loc, includerDir) == CASE loc = "same" -> includerDir [] loc = "sub" -> includerDir \o "/sub" [] OTHER -> loc
@@ -56,11 +57,11 @@ D2 == DirOf(sc.l2, D1)
 D3 == DirOf(sc.l3, D2)
 \* "twice": the main file includes a.asm a second time at its end; "diamond": it also includes b.asm directly
 MainLines == LET b == Body(0) i == IncLine(sc.l1, Names[1])
-                 base == CASE sc.pos = "first" -> <<i>> \o b [] sc.pos = "mid" -> SubSeq(b, 1, 2) \o <<i>> \o SubSeq(b, 3, 4) [] OTHER -> b \o <<i>>
+                 base == CASE sc.pos = "first" -> <<i>> \o b [] sc.pos = "mid" -> SubSeq(b, 1, 2) \o <<i>> \o SubSeq(b, 3, 5) [] OTHER -> b \o <<i>>
              IN CASE sc.again = "twice" -> base \o <<i>>
                   [] sc.again = "diamond" -> base \o <<IncLine("same", Names[2])>>
                   [] OTHER -> base
-F1Lines == IF sc.depth >= 2 THEN <<Body(1)[1], IncLine(sc.l2, Names[2])>> \o SubSeq(Body(1), 2, 4) ELSE Body(1)
+F1Lines == IF sc.depth >= 2 THEN <<Body(1)[1], IncLine(sc.l2, Names[2])>> \o SubSeq(Body(1), 2, 5) ELSE Body(1)
 F2Lines == IF sc.depth >= 3 THEN Body(2) \o <<IncLine(sc.l3, Names[3])>> ELSE Body(2)
 DecoyDir == IF sc.decoy = "cwd" THEN (IF sc.cwd = "." THEN "." ELSE sc.cwd) ELSE "other"
 Present(k) == ~(sc.missing /\ k = sc.depth)
